@@ -129,6 +129,34 @@ def readOff (D : LV) : MG Nat :=
 theorem toMG?_eq (D : LV) (h : D.untagged = []) : D.toMG? = .ok D.readOff := by
   simp [toMG?, h, readOff]
 
+/-- edges of the graph read off ANY fully tagged LV-DAG (flat or not): an observed node points at its
+children; two distinct children of a latent are joined by a bidirected edge -/
+theorem readOff_edges (D : LV) (hnd : D.edges.Nodup) (hm : ∀ e ∈ D.edges, e.1 ∈ D.nodes) (a b : Nat) :
+    (D.readOff.DiEdge a b ↔ a ∉ D.latent ∧ D.Edge a b) ∧
+    (D.readOff.BiEdge a b ↔ a ≠ b ∧ ∃ l, l ∈ D.latent ∧ D.Edge l a ∧ D.Edge l b) := by
+  obtain ⟨_, f2, f3⟩ := foldl_fromStep_spec D D.nodes
+    ((D.nodes.filter (· ∉ D.latent)).foldl MG.addNode MG.empty)
+  constructor
+  · unfold readOff
+    rw [f2, DiEdge, di_foldl_addNode]
+    simp only [MG.empty, List.not_mem_nil, false_or]
+    constructor
+    · rintro ⟨n, _, hnl, rfl, hc⟩; exact ⟨hnl, (mem_children D _ _).1 hc⟩
+    · rintro ⟨hnl, he⟩; exact ⟨a, hm _ he, hnl, rfl, (mem_children D _ _).2 he⟩
+  · unfold readOff
+    rw [f3, BiEdge, bi_foldl_addNode]
+    simp only [MG.empty, List.not_mem_nil, false_or]
+    constructor
+    · rintro ⟨n, _, hnl, h⟩
+      have hndc := nodup_children D hnd n
+      rcases h with h | h
+      · exact ⟨mem_pairs_ne hndc h, n, hnl, (mem_children D _ _).1 (mem_pairs_sub h).1,
+          (mem_children D _ _).1 (mem_pairs_sub h).2⟩
+      · exact ⟨(mem_pairs_ne hndc h).symm, n, hnl, (mem_children D _ _).1 (mem_pairs_sub h).2,
+          (mem_children D _ _).1 (mem_pairs_sub h).1⟩
+    · rintro ⟨hne, l, hl, ha, hb⟩
+      exact ⟨l, hm _ ha, hl, mem_pairs_of_mem ((mem_children D _ _).2 ha) ((mem_children D _ _).2 hb) hne⟩
+
 /-- on a flat LV-DAG the graph read off is the latent projection -/
 theorem readOff_isProjection (D : LV) (hw : D.WF) (hf : D.Flat) : IsProjection D D.readOff := by
   obtain ⟨f1, f2, f3⟩ := foldl_fromStep_spec D D.nodes
